@@ -250,6 +250,12 @@ func prepare(tr *Trace04, probe func(string)) (pw *prepared, f *fail) {
 	}
 	word := make([]int, n)
 	copy(word, tr.Data)
+	// whatever the parity area holds before the call is none of the
+	// encoder's business: it is pre-filled with junk (a re-used buffer)
+	junk := kit.NewRNG(uint64(tr.K)*31+uint64(tr.R), uint64(len(tr.Data)))
+	for i := tr.K; i < n; i++ {
+		word[i] = junk.Intn(rf.Size)
+	}
 	enter("enc/hang", "enc/hang/"+tr.Field, tr, "ReedSolomonEncoder.Encode")
 	err := rs.NewReedSolomonEncoder(lf).Encode(word, tr.R)
 	leave()
@@ -516,7 +522,16 @@ func min04(tr *Trace04, class string) *Trace04 {
 		return f != nil && f.class == class
 	}
 	cur := *tr
-	keep := kit.DDMin(len(tr.Errors), func(idx []int) bool {
+	// one candidate costs about n*r + 10*r*r + |F|*r/2 table operations
+	cost := int64(tr.K+tr.R)*int64(tr.R) + 10*int64(tr.R)*int64(tr.R) + 2048*int64(tr.R)
+	budget := int(3e9 / (cost + 1))
+	if budget > 400 {
+		budget = 400
+	}
+	if budget < 8 {
+		budget = 8
+	}
+	keep := kit.DDMinN(len(tr.Errors), budget, func(idx []int) bool {
 		t := cur
 		t.Errors = nil
 		for _, i := range idx {
@@ -535,8 +550,11 @@ func min04(tr *Trace04, class string) *Trace04 {
 	if test(&t) {
 		cur = t
 	}
-	// magnitudes to 1
+	// magnitudes to 1 (only when few errors are left)
 	for i := range cur.Errors {
+		if len(cur.Errors) > 16 {
+			break
+		}
 		old := cur.Errors[i][1]
 		cur.Errors[i][1] = 1
 		if !test(&cur) {
